@@ -10,6 +10,7 @@ import (
 	"context"
 	"crypto/cipher"
 	"crypto/ecdh"
+	"crypto/mlkem"
 	"encoding/binary"
 	"errors"
 	"fmt"
@@ -27,10 +28,19 @@ const NotBuilt ClientHelloBuildStatus = 0
 const BuildByUtls ClientHelloBuildStatus = 1
 const BuildByGoTLS ClientHelloBuildStatus = 2
 
+type hybridKeySharePrivateKeys struct {
+	mlkem *mlkem.DecapsulationKey768
+	ecdhe *ecdh.PrivateKey
+}
+
 type UConn struct {
 	// extraEcdheKeys holds the private keys of classical key shares after the
 	// first one (which lives in HandshakeState.State13.KeyShareKeys.Ecdhe).
 	extraEcdheKeys map[CurveID]*ecdh.PrivateKey
+	// extraHybridKeys holds the private keys of hybrid key shares before the
+	// last one (which lives in HandshakeState.State13.KeyShareKeys.Mlkem and
+	// MlkemEcdhe).
+	extraHybridKeys map[CurveID]hybridKeySharePrivateKeys
 
 	*Conn
 
